@@ -5,6 +5,7 @@
 #include <algorithm>
 #include <concepts>
 #include <coroutine>
+#include "verif_hooks.h"
 
 
 #ifdef __CDT_PARSER__
